@@ -601,6 +601,75 @@ class InvValid(Inv):
                 yield v
 
 
+class ClimatologyShiftHistory(Case):
+    """bounded (climatology_test is outside the self-composition): time stamps and absolute time spans shifted
+    together leave every flag unchanged - also when the shifted configuration is the SAME list / dict objects
+    edited in place between the two calls (what a program that slides a window over its data does), and when the
+    value spans are shifted together with the data"""
+
+    is_bounded = True
+    module = "ioos_qc.qartod"
+    function = "climatology_test"
+    default_props = {}
+    props = {"bounded.climatology_shift_history": ("C17",)}
+
+    def all_props(self):
+        return {"C17"}
+
+    def one(self, values):
+        import copy
+        import warnings
+
+        import numpy as np
+        import pandas as pd
+
+        from pyvc import replay
+
+        q = replay.real_module("ioos_qc.qartod")
+        day = 86400
+        base = pd.Timestamp("2021-03-01")
+        ts = lambda d: base + pd.Timedelta(days=d)  # noqa: E731
+        cfg = [{"tspan": [ts(0), ts(20)], "vspan": [10, 20], "fspan": [0, 40]}, {"tspan": [ts(10), ts(30)], "vspan": [12, 14], "zspan": [0, 5]}]
+        if values["carrier"] == "tuple":
+            cfg = tuple(cfg)
+        times = np.array([ts(d) for d in (-1, 0, 5, 12, 25, 31)], dtype="datetime64[ns]")
+        x = np.array([15.0, 15.0, 30.0, 13.0, 50.0, 15.0])
+        z = np.array([1.0, 1.0, 1.0, 1.0, 9.0, 1.0])
+        shift_t = pd.Timedelta(days=values["days"])
+        shift_v = values["dv"]
+        flags = lambda r: np.ma.filled(np.ma.masked_array(r), 255).astype(int).tolist()  # noqa: E731
+        try:
+            with warnings.catch_warnings():
+                warnings.simplefilter("ignore")
+                first = flags(q.climatology_test(cfg, x, times, z))
+                if values["how"] == "in-place":
+                    for m in cfg:
+                        m["tspan"] = [m["tspan"][0] + shift_t, m["tspan"][1] + shift_t]
+                        for k_ in ("vspan", "fspan"):
+                            if k_ in m:
+                                m[k_] = [m[k_][0] + shift_v, m[k_][1] + shift_v]
+                    cfg2 = cfg
+                else:
+                    cfg2 = copy.deepcopy(cfg)
+                    cfg2 = type(cfg)({**m, "tspan": [m["tspan"][0] + shift_t, m["tspan"][1] + shift_t], **{k_: [m[k_][0] + shift_v, m[k_][1] + shift_v] for k_ in ("vspan", "fspan") if k_ in m}} for m in cfg2)
+                second = flags(q.climatology_test(cfg2, x + shift_v, times + shift_t.to_timedelta64(), z))
+        except Exception as ex:  # noqa: BLE001
+            return "%s raised %r" % (values, ex)
+        if first != second:
+            return "flags %s before, %s after shifting stamps and spans together (%s)" % (first, second, values)
+        return None
+
+    def bounded_checks(self, tier, rng):
+        for how in ("in-place", "fresh"):
+            for carrier in ("list", "tuple"):
+                for days, dv in ((40, 0), (-400, 0), (0, 8), (7, 2.5)):
+                    v = {"how": how, "carrier": carrier, "days": days, "dv": dv}
+                    yield ("climatology-shift", "climatology-shift", v, (lambda v=v: self.one(v)))
+
+    def replay_bounded(self, label, values):
+        return self.one(values)
+
+
 def cases():
     cs = []
     for m in ("average", "differential"):
@@ -626,4 +695,5 @@ def cases():
     cs.append(InvValid(kind="float", tr="local"))
     cs.append(InvValid(kind="datetime", tr="tshift"))
     cs.append(InvValid(kind="datetime", tr="local"))
+    cs.append(ClimatologyShiftHistory())
     return cs
